@@ -37,7 +37,7 @@ def apply_change(text, ch):
 class Doc:
     CLASSES = ["ins_stmt", "del_stmt", "repl_stmt", "ins_decl", "del_decl", "ins_var", "del_var", "ins_param", "del_param", "ins_comment", "del_comment",
                "ws", "repl_literal", "repl_ident", "repl_expr", "type_char", "append_eof",
-               "add_else", "del_else", "ins_arg", "del_arg", "toggle_ref", "change_op", "wrap_paren", "negate", "wrap_block"]
+               "add_else", "del_else", "ins_arg", "del_arg", "toggle_ref", "change_op", "wrap_paren", "negate", "wrap_block", "ins_gap_comment", "del_gap_comment"]
 
     # ---- structural edits below the statement level (still valid -> valid)
     def _stmts(s, kind=None):
@@ -49,7 +49,9 @@ class Doc:
         st, proc, parent, in_list = s.rng.choice(c)
         s.G.cur = proc; s.G.type_pool = getattr(proc, "visible_types", None)
         e = s.G.block(0) if s.rng.random() < .5 else s.G.stmt(0, ["assign", "call", "empty"])
-        st.els = e; st.parts = st.parts + [kw("else"), e]
+        k = kw("else")
+        if s.rng.random() < .25: k.lead.append(s.G.comment("else"))        # ... behind a comment line that follows the then-branch
+        st.els = e; st.parts = st.parts + [k, e]
         return "block" if e.kind == "Block" else "simple"
 
     def del_else(s):
@@ -270,6 +272,21 @@ class Doc:
         t, k = s.rng.choice(sites)
         t.lead.pop(s.rng.randrange(len(t.lead)))
         return ("doc:" if k.endswith("Decl") else "stmt:") + k
+
+    def ins_gap_comment(s):
+        """a comment line in an arbitrary token gap (between a keyword and a name, inside an expression, before a separator ...)"""
+        toks = [t for t in s.P.toks if t.kind != "comment"]
+        if not toks: return None
+        t = s.rng.choice(toks)
+        t.lead.insert(s.rng.randint(0, len(t.lead)), s.G.comment("gap"))
+        return "gap"
+
+    def del_gap_comment(s):
+        toks = [t for t in s.P.toks if t.kind != "comment" and t.lead]
+        if not toks: return None
+        t = s.rng.choice(toks)
+        t.lead.pop(s.rng.randrange(len(t.lead)))
+        return "gap"
 
     def ws(s):
         toks = s.P.toks
